@@ -196,7 +196,10 @@ _strtoll (const char *nptr, char **endptr, int base)
 
   /* Try to detect the base if none was given */
   if (base == 0) {
-    if (*nptr == '0' && (*(nptr + 1) == 'x' || *(nptr + 1) == 'X')) {
+    /* "0x" is a prefix only in front of a hex digit; alone it is the number 0
+     * followed by an x, as for strtoll() */
+    if (*nptr == '0' && (*(nptr + 1) == 'x' || *(nptr + 1) == 'X') &&
+        isxdigit ((unsigned char) *(nptr + 2))) {
       base = 16;
       nptr += 2;
     } else if (*nptr == '0') {
@@ -206,7 +209,8 @@ _strtoll (const char *nptr, char **endptr, int base)
       base = 10;
     }
   } else if (base == 16) {
-    if (*nptr == '0' && (*(nptr + 1) == 'x' || *(nptr + 1) == 'X'))
+    if (*nptr == '0' && (*(nptr + 1) == 'x' || *(nptr + 1) == 'X') &&
+        isxdigit ((unsigned char) *(nptr + 2)))
       nptr += 2;
   } else if (base == 8) {
     if (*nptr == '0')
